@@ -249,6 +249,21 @@ class Ctx:
             return str(i)
         return Sym(z3.IntToStr(i.e))
 
+    def atom(self, name, sample, excludes='', distinct_from=(), **facts):
+        """an arbitrary non-empty string over the complement of `excludes` (structured-string atom); native runs use
+        the model's value or `sample`"""
+        if self.mode != 'sym':
+            v = self.model.get(name, sample)
+            self.inputs[name] = v
+            return v
+        from .sstr import SStr, Atom
+        a = Atom(name, excludes, distinct_from, facts.pop('first_not_digit', False), sample)
+        for k, v in facts.items():
+            setattr(a, k, v)
+        self.atoms = getattr(self, 'atoms', {})
+        self.atoms[name] = a
+        return SStr([a])
+
     def push_scope(self, assumption):
         """temporary assumption (body of a symbolic comprehension); no forks allowed inside"""
         self.solver.push()
